@@ -91,8 +91,33 @@ def _swap(em, rd, call, args, obj):
     return '({ %s = %s; %s = %s; %s = __swap_t; (void)0; })' % (em.cdecl(ta, '__swap_t'), a, a, b, b)
 
 
+def _clock_now(em, rd, call, args, obj):
+    if args:
+        return None
+    em.lowerings['M-chrono(clock::now -> vstd_clock_now)'] += 1
+    return 'vstd_clock_now()'
+
+
+def _duration_cast(em, rd, call, args, obj):
+    if len(args) != 1:
+        return None
+    em.lowerings['M-chrono(duration_cast: identity on tick counts)'] += 1
+    return em.E(args[0])
+
+
+def _chrono_minus(em, rd, call, args, obj):
+    # operator-(time_point, time_point) / (duration, duration) of <chrono>
+    if len(args) != 2 or 'chrono' not in (rd.get('type', {}).get('qualType') or '') + str(call.get('type', {})):
+        return None
+    em.lowerings['M-chrono(operator-)'] += 1
+    return '((%s) - (%s))' % (em.E(args[0]), em.E(args[1]))
+
+
 MODELS = {
     'swap': _swap,
+    'now': _clock_now,
+    'duration_cast': _duration_cast,
+    'operator-': _chrono_minus,
     'make_unique': _make_unique,
     'uncaught_exceptions': _uncaught,
     'uncaught_exception': _uncaught,
